@@ -24,7 +24,7 @@ RULE = (
     "where its init flag is on, or a plain output entry negative where its next flag is on) and the compared entries "
     "are not NaN. Distinct = SHA-1 of the case."
 )
-BUDGET = {"quick": {"examples": 250, "shards": 4}, "thorough": {"fuzz_runs": 3000, "examples": 4000, "shards": 16}}
+BUDGET = {"quick": {"examples": 160, "shards": 4}, "thorough": {"fuzz_runs": 3000, "examples": 4000, "shards": 16}}
 EXPECTED_LABELS = ("feedback", "engine:numpy", "engine:SX", "engine:MX", "clamp:init:v", "clamp:init:rho", "clamp:init:w", "clamp:next:v",
                    "clamp:next:rho", "clamp:next:w", "opts:none", "opts:all", "restep", "unclamped-negative-output",
                    "vsl:some", "origin:main", "origin:simp_lim")
@@ -68,12 +68,13 @@ def clip_state(state, opts, which, ctx=None, tag="init"):
     return out
 
 
-def step_on(kind, sp, state, opts, built):
-    """Steps/compiles on the given (possibly re-used) network objects; returns next {id: {var: arr}}."""
+def step_on(kind, sp, state, opts, built, ic=None):
+    """Steps/compiles on the given (possibly re-used) network objects; returns next {id: {var: arr}}.
+    ic: the caller's own init_conditions dictionaries, re-used as they are across steps."""
     net, els, _ = built
     pars = S.pars_kwargs(sp)
     if kind == "numpy":
-        net.step(init_conditions=S.ic_numpy(els, state), engine=NumpyEngine(), **S.opts_kwargs(opts), **pars)
+        net.step(init_conditions=ic if ic is not None else S.ic_numpy(els, state), engine=NumpyEngine(), **S.opts_kwargs(opts), **pars)
         return {i: {k: np.asarray(v, dtype=float).reshape(-1) for k, v in el.next_states.items()} for i, el in els.items() if el.next_states}
     F, _, _ = cas.compile_net(sp, kind, 0, False, opts, built=built)
     lay = layout.Layout(sp, layout.element_order(net, els))
@@ -134,11 +135,12 @@ def check_case(case, ctx):
         return
     if len(case["masks"]) > 1:
         ctx.label("restep")
+    kept_ic = S.ic_numpy(shared[1], case["state"]) if kind == "numpy" else None  # one dictionary for all steps
     for step_no, m in enumerate(case["masks"]):
         opts = mask_to_opts(m)
         ctx.label("opts:none" if m == 0 else "opts:all" if m == 63 else "opts:some")
         state = case["state"]
-        got = guarded(ctx, f"{kind}-step-opts", step_on, kind, sp, state, opts, shared)
+        got = guarded(ctx, f"{kind}-step-opts", step_on, kind, sp, state, opts, shared, kept_ic)
         clipped = clip_state(state, opts, INIT, ctx, "init")
         plain = guarded(ctx, f"{kind}-step-plain", step_on, kind, sp, clipped, [], S.build(sp))
         if crashed(got) or crashed(plain):
